@@ -95,6 +95,9 @@ MUTATIONS = [
  ('e16', 'C06', 'src/adapt_strategy.rs', r's/let final_second_step_size = num_tune\.saturating_sub\(step_size_window\);/let final_second_step_size = ((1.0 - options.step_size_window).max(0.0) * num_tune_f).floor() as u64; let _ = step_size_window;/', 'NOT A VIOLATION: the final window is still the last step_size_window fraction of warm-up, only rounded the other way (at most one draw)'),
  ('e17', 'C09', 'src/transform/adapt/low_rank.rs', r's/        for _ in 0\.\.self\.background_split \{\n            self\.draws\.pop_front\(\)\.expect\("Could not drop draw"\);\n            self\.grads\.pop_front\(\)\.expect\("Could not drop gradient"\);\n        \}/        let keep = self.draws.len() - self.background_split;\n        while self.draws.len() > keep {\n            self.draws.pop_front().expect("Could not drop draw");\n            self.grads.pop_front().expect("Could not drop gradient");\n        }/', 'EQUIVALENT (drop loop written as a while over the remaining length)'),
  ('e18', 'C12', 'src/sampler.rs', r's/                    draw \+= 1;\n                    if draw == draws \{\n                        break;\n                    \}/                    draw += 1;\n                    if draw >= draws {\n                        break;\n                    }/', 'EQUIVALENT (== as >= on a counter that advances by one)'),
+ ('m73', 'C18', 'src/sampler.rs', r's/let switch_draw = \(self\.trajectory_switch_fraction \* self\.num_tune as f64\) as u64;\n        let rng = ChaCha8Rng::try_from_rng\(rng\)\.expect\("Could not seed rng"\);\n        let stats_options = self\.stats_options::<M>\(\);\n        MclmcChain::new\(\n            math,\n            hamiltonian,\n            strategy,/let switch_draw = (self.trajectory_switch_fraction \/ self.num_tune as f64) as u64;\n        let rng = ChaCha8Rng::try_from_rng(rng).expect("Could not seed rng");\n        let stats_options = self.stats_options::<M>();\n        MclmcChain::new(\n            math,\n            hamiltonian,\n            strategy,/', 'an MCLMC preset computes the switch draw as fraction \/ num_tune (mutation campaign)'),
+ ('m74', 'C08', 'src/transform/low_rank.rs', r's/        self\.logdet = self\.diag\.logdet\(\);\n        self\.id \+= 1;/        self.logdet = self.diag.logdet();\n        self.id += 0;/', 'update_from_grad does not bump the id (mutation campaign)'),
+ ('m75', 'C08', 'src/transform/diagonal.rs', r's/        math\.copy_into\(draw_mean, &mut self\.mean\);\n        self\.logdet = math\.array_sum_ln\(&self\.inv_stds\);\n        self\.id \+= 1;/        math.copy_into(draw_mean, \&mut self.mean);\n        self.logdet = math.array_sum_ln(\&self.inv_stds);\n        self.id -= 1;/', 'update_diag_draw counts the id down (mutation campaign)'),
  ('e01', 'C18', 'src/mclmc.rs', r's/&& self.draw_count == self.switch_draw/&& self.draw_count >= self.switch_draw/', 'EQUIVALENT on reachable states: must not be flagged'),
  ('e02', 'C08', 'src/math/cpu_math.rs', r's/\*mean \+= diff \* diff_scale;\n                \*var \+= diff \* diff;/*mean += diff * diff_scale;\n                *var += diff * (x - *mean);/', 'EQUIVALENT for the property (ratio of variances unchanged): must not be flagged'),
 ]
